@@ -226,6 +226,43 @@ func setStr(m map[string]bool) string {
 	return strings.Join(ks, "|")
 }
 
+// passThroughTypes: for a path on which a pointer's element schema is returned
+// unwrapped, the schema types that element may have: from a test of the
+// element schema's Type when there is one, otherwise from the element's Go
+// kind through the table itself.
+func passThroughTypes(t *schemaTable, o sgOutcome) []string {
+	var out []string
+	for k, v := range o.Path.State.eq {
+		if strings.HasSuffix(k, "->Type)") && strings.HasPrefix(v, "s:") {
+			out = append(out, strings.TrimPrefix(v, "s:"))
+		}
+	}
+	if len(out) > 0 {
+		sort.Strings(out)
+		return out
+	}
+	tp := t.fn.Params[0].Name()
+	ek := o.Path.State.kindsOf(tp+".Elem()") & allRealKinds
+	set := map[string]bool{}
+	for _, k := range ek.kinds() {
+		for _, key := range []string{k.String(), k.String() + "/byte", k.String() + "/other"} {
+			for ty := range t.rows[key] {
+				if ty == "=elem" {
+					ty = "union" // a pointer to a pointer: whatever that yields is a union or passes through in turn
+				}
+				if ty != "reject" {
+					set[ty] = true
+				}
+			}
+		}
+	}
+	for ty := range set {
+		out = append(out, ty)
+	}
+	sort.Strings(out)
+	return out
+}
+
 func ruleSGMap(c *Ctx) {
 	c.Rule("SG-MAP", "the schema generated for each Go kind is the documented one (integers long, floats double, bool boolean, string, byte slices bytes, slices array, maps map, structs record, pointers [null,T] or the element's own array/map/union), and every other kind is an error", 26)
 	P := c.P
@@ -240,6 +277,23 @@ func ruleSGMap(c *Ctx) {
 	for _, o := range t.outs {
 		if strings.HasPrefix(o.Type, "?") {
 			c.Unk("avro.schemaForType/return", P.pos(o.Pos), "a return of schema generation is not understood: "+o.Type)
+		}
+	}
+	// pointers: the element's own schema may pass through unwrapped only if it is a union, an array or a map
+	tpn := t.fn.Params[0].Name()
+	seenPT := map[string]bool{}
+	for _, o := range t.outs {
+		if o.Type != "=elem" || o.Path.State.kindsOf(tpn)&allRealKinds != kindSetOf(reflect.Ptr) {
+			continue
+		}
+		for _, et := range passThroughTypes(t, o) {
+			key := "avro.schemaForType/ptr-pass-through[" + et + "]"
+			if seenPT[key] {
+				continue
+			}
+			seenPT[key] = true
+			okT := et == "union" || et == "array" || et == "map"
+			c.Check(okT, key, P.pos(o.Pos), "documented: pointers to slices and maps stay plain arrays and maps, unions are not wrapped again", fmt.Sprintf("a pointer whose element schema is %q is given that schema unwrapped; the documented mapping makes it [null, %s]", et, et))
 		}
 	}
 	for k := reflect.Bool; k <= reflect.UnsafePointer; k++ {
@@ -642,7 +696,7 @@ func ruleSGNames(c *Ctx) {
 }
 
 func ruleBTPtrWrap(c *Ctx) {
-	c.Rule("BT-PTRWRAP", "every schema generated for a pointer is a union, because the pointer codec writes nothing for nil and relies on an enclosing union to write the null branch", 2)
+	c.Rule("BT-PTRWRAP", "every schema generated for a pointer is a union, because the pointer codec writes nothing for nil and relies on an enclosing union to write the null branch", 1)
 	P := c.P
 	t := schemaTableOf(P)
 	if !c.Anchor(t.fn != nil && t.ok, "schemaForType table") {
@@ -664,14 +718,7 @@ func ruleBTPtrWrap(c *Ctx) {
 			}
 		case "=elem":
 			// which element types are passed through unwrapped?
-			var ets []string
-			for k, v := range o.Path.State.eq {
-				if strings.HasSuffix(k, "->Type)") && strings.HasPrefix(v, "s:") {
-					ets = append(ets, strings.TrimPrefix(v, "s:"))
-				}
-			}
-			sort.Strings(ets)
-			for _, et := range ets {
+			for _, et := range passThroughTypes(t, o) {
 				key := "avro.schemaForType/ptr->" + et
 				if seen[key] {
 					continue
